@@ -114,7 +114,9 @@ def work_prim(item):
                 env.update({k: x for k, x in (model or {}).items() if k in env})
                 return replay_prim(v, kind, eng, env, label)
 
-            acc.query(prover, None, f"{v.name} {eng}", label, goal, D, pc, on_sat)
+            prm = {"rho_max": 160.0, "rho_crit": 32.0, "C": 2048.0, "T": 0.004, "a": 1.8, "v_free": 110.0, "lanes": 2.0}
+            penv = [{a_.name: prm[a_.name] * (1 + 0.1 * j) for a_ in v.args if not a_.is_static and a_.name in prm} for j in range(3)]
+            acc.query(prover, None, f"{v.name} {eng}", label, goal, D, pc, on_sat, retry_envs=penv)
     for s in acc.d["samples"]:
         s["primitive"] = v.name
     return acc.done(prover)
